@@ -16,6 +16,7 @@ LOCNAME = {0: '-', 1: 'empty', 2: 'full', 3: 'cell', 9: 'new.tmp', -1: '?'}
 ORDNAME = {0: 'Relaxed', 1: 'Release', 2: 'Acquire', 3: 'AcqRel', 4: 'SeqCst', 255: '-'}
 SEND, RECV = 1, 2
 SLOTS = 5
+DRIVER = (['run_channel', 'run_history', 'run_ra'], ['channel/Run.vo', 'channel/RunRA.vo'])
 
 
 class Scenario:
@@ -439,9 +440,10 @@ def mon_c07(s, r):
 def lockstep(ctx, monitors, corr_name='lock-step: SC channel model trace = implementation trace (same schedules)'):
     scen = gen(ctx.seed, ctx.tier)
     impl = run_impl(scen)
-    ok_driver = ctx.driver('channel', ['run_channel', 'run_history'], ['channel/Run.vo'])
+    ok_driver = ctx.driver('channel', *DRIVER)
     model = run_model(scen) if ok_driver else None
     diffs, seen, switches, spurious, nested = [], set(), 0, 0, 0
+    reported = {}
     for i, (s, r) in enumerate(zip(scen, impl)):
         ctx.evaluations += 1
         if 'error' in r:
@@ -473,10 +475,15 @@ def lockstep(ctx, monitors, corr_name='lock-step: SC channel model trace = imple
                 ctx.traces += 1
         for mon in monitors:
             for kind, idx, what in mon(s, r):
+                reported[kind] = reported.get(kind, 0) + 1
+                if reported[kind] > 3:       # the first three inputs per kind of failure are enough
+                    continue
                 ctx.violation({'monitor': kind, 'scenario': s.name, 'setup': s.setup, 'acts': s.acts, 'schedule': s.sched},
                               what, {'scenario': s.json(), 'trace': [pretty(l) for l in r['trace']], 'at': idx})
     if model is not None:
         ctx.correspondence(corr_name, not diffs, diffs[:3])
+    if reported:
+        ctx.coverage['monitor_hits'] = reported
     ctx.coverage['input_distribution'] = {
         'scenarios': len(scen), 'kinds': sorted(set(s.name for s in scen)),
         'distinct_interleaved_traces': len(seen), 'context_switches_total': switches,
@@ -559,3 +566,121 @@ def histories(ctx, n=500):
     ctx.correspondence('differential: %d single-thread send/recv histories, SC model results = implementation results' % n, not bad_model, bad_model[:2])
     ctx.coverage['histories'] = {'count': n, 'max_len': max(len(h) for h in hs), 'mean_len': round(sum(len(h) for h in hs) / n, 1)}
     return nviol
+
+
+# ------------------------------------------------------------------------------------------
+# model-side search in the view semantics (coq/channel/ModelRA.v via RunRA.v): random schedules
+# with random read-from choices; a frame ending in RACE / PANIC is a weak-memory execution that
+# breaks C07 / C08.  x86 hardware cannot exhibit it; the replay is a model execution.
+BADNAME = {1: 'panic: No empty slot available', 2: 'panic: Full slot with nothing in it', 3: 'panic: storage index out of range',
+           11: 'RACE: channel used without its construction in view (Slot publication)', 12: 'RACE: unordered accesses to a payload cell'}
+
+
+def ra_gen(rnd):
+    n = rnd.randint(2, 4)
+    labels, tag, frames = [], 0, 0
+    for _ in range(rnd.randint(8, 50)):
+        if frames < n and (frames == 0 or rnd.random() < 0.2):
+            kind = rnd.choice((1, 1, 2))
+            p = 0 if frames == 0 or rnd.random() < 0.5 else rnd.randint(1, frames)
+            labels.append((1, kind, tag, p)); tag += 1; frames += 1
+        else:
+            k = rnd.randrange(frames)
+            for _ in range(rnd.randint(1, 4)):
+                labels.append((0, k, rnd.choice((0, 0, 0, 1, 1, 2, 3, 5)), 0))
+    return labels
+
+
+def ra_run(cases):
+    outs = common.run_driver('channel', ['run_ra ' + ' '.join(str(x) for l in c for x in l) for c in cases])
+    res = []
+    for o in outs:
+        v = [int(x) for x in o.split()] if o and not o.startswith('!') else [-1]
+        k = v.index(-1) if -1 in v else len(v)
+        res.append(v[:k])
+    return res
+
+
+def ra_pretty(labels):
+    out = []
+    for a, b, c, d in labels:
+        if a == 1:
+            out.append('spawn F%d = %s with %s' % (sum(1 for x in labels[:labels.index((a, b, c, d))] if x[0] == 1),
+                                                   'send(%d)' % c if b == 1 else 'recv()', 'bottom view' if d == 0 else 'the view of F%d' % (d - 1)))
+        else:
+            out.append('F%d steps, choice %d' % (b, c))
+    return out
+
+
+def ra_search(ctx, n):
+    """returns number of bad executions found (each reported through ctx.violation, minimised)"""
+    if not ctx.driver('channel', *DRIVER):
+        return 0
+    rnd = random.Random(ctx.seed * 31337 + 7)
+    cases = [ra_gen(rnd) for _ in range(n)]
+    res = ra_run(cases)
+    ctx.evaluations += n
+    found = {}
+    for c, r in zip(cases, res):
+        for b in r:
+            if b != 0 and (b not in found or len(c) < len(found[b])):
+                found[b] = c
+    for b, c in sorted(found.items()):
+        # greedy minimisation
+        changed = True
+        while changed:
+            changed = False
+            for i in range(len(c)):
+                d = c[:i] + c[i + 1:]
+                if d and b in ra_run([d])[0]:
+                    c, changed = d, True
+                    break
+        ctx.violation({'monitor': 'view-semantics', 'state': BADNAME.get(b, b)},
+                      'the view semantics with the orderings extracted from the source reaches %s' % BADNAME.get(b, b),
+                      {'ra_labels': c, 'execution': ra_pretty(c), 'side': 'model',
+                       'note': 'weak-memory execution of coq/channel/ModelRA.v (label = [0 frame choice _] step | [1 kind value parent+1] spawn)'})
+    ctx.coverage['view_semantics_search'] = {'executions': n, 'bad': len(found)}
+    return len(found)
+
+
+def replay_case(ctx, path, monitors):
+    import json
+    case = json.load(open(path))
+    c = case.get('case', {})
+    if c.get('ra_labels'):
+        ctx.translate(['channel'])
+        if not ctx.driver('channel', *DRIVER):
+            return 1
+        labels = [tuple(l) for l in c['ra_labels']]
+        r = ra_run([labels])[0]
+        for l in ra_pretty(labels):
+            print(l)
+        bad = [b for b in r if b]
+        for b in bad:
+            print('REPRODUCED (model execution):', BADNAME.get(b, b))
+        return 1 if bad else 0
+    if c.get('history'):
+        ctx.harness(['ls_channel'])
+        h = [tuple(o) for o in c['history']]
+        exe = common.bin_path('ls_channel')
+        rc, out, _ = common.sh([exe], input=('H %d %s\n' % (len(h), ' '.join('%d %d' % o for o in h))).encode(), timeout=120)
+        exp, _, _ = spec_history(h)
+        print('implementation:', out.strip()); print('bounded FIFO    : R', ' '.join(str(x) for x in exp))
+        got = [int(x) for x in out.split('|')[0][1:].split()] if out.startswith('R') else None
+        if got != exp:
+            print('REPRODUCED: results differ from the bounded FIFO of capacity 5')
+            return 1
+        return 0
+    sc = c.get('scenario')
+    if not sc:
+        print('replay file names no concrete input:', json.dumps(case.get('broken'), indent=1)[:2000])
+        return 1
+    ctx.harness(['ls_channel'])
+    s = from_json(sc)
+    r = run_impl([s])[0]
+    for l in r['trace']:
+        print(pretty(l))
+    v = [x for mon in monitors for x in mon(s, r)]
+    for kind, idx, what in v:
+        print('REPRODUCED:', what)
+    return 1 if v or 'error' in r else 0
